@@ -12,15 +12,11 @@ Open Scope Z_scope.
 
 (* a statement template: literal text and placeholders (anonymous `?`, positional `$n`) *)
 Inductive piece := Lit (t : list Z) | PhA | PhP (n : Z).
-(* a bound value; for floats `canon` is the equivalent literal of the reference statement (Rust's
-   shortest round-trip form, an oracle column) *)
-Inductive cparam := P (v : val) (canon : list Z).
-
 Inductive case :=
 | Lex (sql : list Z) (toks : option (list (Z * Z * Z * Z))) (cnt : Z)
     (* every token of the real lexer as (code, n, start, end); None = the lexer panicked;
        cnt = count_parameters(sql) *)
-| Run (path : Z) (st : list piece) (p1 p2 : list cparam)
+| Run (path : Z) (st : list piece) (p1 p2 : list val)
       (h : list Z)      (* [fnv inlined1; fnv inlined2; fnv substituted1; fnv substituted2], -1 = none *)
       (d : list Z)      (* digests [ref1; ref2; got1; got2; raw1; raw2; qtx1; qtx2] *)
       (k : list Z)      (* outcome kinds [ref1; ref2; got1; got2]: 0 ok, 1 error, 2 panic *)
@@ -71,16 +67,14 @@ Definition ph_text (p : piece) : list Z :=
   end.
 Definition flat (st : list piece) : list Z := concat (map ph_text st).
 
-(* the equivalent literal of the property's reference statement *)
-Definition spec_lit (p : cparam) : list Z :=
-  match p with
-  | P (VFloat _ _) canon => canon
-  | P v _ => render v
-  end.
+(* the equivalent literal of the property's reference statement: NULL, TRUE / FALSE, the decimal
+   digits, '...' with doubled quotes, X'..'; for a float Rust's shortest round-trip form (the oracle
+   column `shown`) *)
+Definition spec_lit (v : val) : list Z := render v.
 
 (* the reference statement: every placeholder replaced by the equivalent literal as a token of its
    own (a space on either side); anonymous placeholders take the values in order, $n the n-th *)
-Fixpoint spec_inline (st : list piece) (ps : list cparam) (k : nat) : option (list Z) :=
+Fixpoint spec_inline (st : list piece) (ps : list val) (k : nat) : option (list Z) :=
   match st with
   | [] => Some []
   | Lit t :: r => option_map (app t) (spec_inline r ps k)
@@ -100,17 +94,17 @@ Fixpoint spec_inline (st : list piece) (ps : list cparam) (k : nat) : option (li
 Definition fnv (l : list Z) : Z :=
   fold_left (fun h b => Z.land (Z.lxor h b * 1099511628211) 18446744073709551615) l 14695981039346656037.
 
-Definition vals (ps : list cparam) : list val := map (fun p => match p with P v _ => v end) ps.
+Definition vals (ps : list val) : list val := ps.
 
-Definition hash_subst (sql : list Z) (ps : list cparam) : Z :=
+Definition hash_subst (sql : list Z) (ps : list val) : Z :=
   match subst sql (vals ps) with SOk o => fnv o | _ => -1 end.
-Definition hash_inline (st : list piece) (ps : list cparam) : Z :=
+Definition hash_inline (st : list piece) (ps : list val) : Z :=
   match spec_inline st ps O with Some o => fnv o | None => -1 end.
 
 Definition nthz (l : list Z) (i : nat) : Z := nth i l (-7).
 
 (* ---------------------------------------------------------------- Run: agreement with the model *)
-Definition run_agrees (path : Z) (st : list piece) (p1 p2 : list cparam) (h d : list Z) (pc : Z) : bool :=
+Definition run_agrees (path : Z) (st : list piece) (p1 p2 : list val) (h d : list Z) (pc : Z) : bool :=
   let sql := flat st in
   (* the harness' reference text is the Spec's inline; its copy of substitute_parameters, driven by
      the REAL lexer, produced exactly the model's text *)
@@ -145,7 +139,7 @@ Definition stmt_is (kw : list Z) (st : list piece) : bool := has_prefix kw (map 
 
 Definition has_ph (st : list piece) : bool := existsb (fun p => match p with Lit _ => false | _ => true end) st.
 
-Definition any_param (f : val -> bool) (p1 p2 : list cparam) : bool := existsb f (vals p1) || existsb f (vals p2).
+Definition any_param (f : val -> bool) (p1 p2 : list val) : bool := existsb f (vals p1) || existsb f (vals p2).
 
 (* "INSERT INTO t VALUES (?,?,?,?,?,?)" with the six values in column order: the only shape for which
    the cached insert plan (which stores the bound values as the row, in order) is right *)
@@ -219,27 +213,23 @@ Definition val_eqb (a b : val) : bool :=
 Definition same_values (a b : list val) : bool := list_eqb val_eqb a b.
 
 (* class of a Run case; 0 = not a recorded finding *)
-Definition run_class (path : Z) (st : list piece) (p1 p2 : list cparam) (d k : list Z) : Z :=
-  (* the first execution that differs returned exactly what the statement returns with its
-     placeholders left unbound (a later difference may be its consequence) *)
-  let got_raw := if nthz d 2 =? nthz d 0 then nthz d 3 =? nthz d 5 else nthz d 2 =? nthz d 4 in
+Definition run_class (path : Z) (st : list piece) (p1 p2 : list val) (d k : list Z) : Z :=
   let first_ok := nthz d 2 =? nthz d 0 in
   let second_bad := negb (nthz d 3 =? nthz d 1) in
   (* the first execution that differs is one on which the bound statement raised an error (a later
      difference may just be its consequence: the first update is missing) *)
   let bound_errs := if nthz d 2 =? nthz d 0 then nthz k 3 =? 1 else nthz k 2 =? 1 in
+  let upd_or_del := stmt_is kw_update st || stmt_is kw_delete st in
+  (* classes 1, 2, 3, 5 and 9 were repaired in /repo (77099db, 82cbce6, 692c755, e081981) and are no
+     longer recognised; class 7 (substitution changes the token structure, the model's own
+     prediction) has no recorded finding any more: a case in it is a violation *)
   if any_param is_int_min p1 p2 then 6
-  else if path =? path_qry then
-    (if negb (subst_stable (flat st) (vals p1)) || negb (subst_stable (flat st) (vals p2)) then 7
-     else if any_param float_shown_as_int p1 p2 then 5 else 0)
-  else if stmt_is kw_select st && has_ph st && got_raw then 1
-  else if stmt_is kw_delete st && has_ph st && got_raw then 2
+  else if stmt_is kw_select st
+          && (negb (subst_stable (flat st) p1) || negb (subst_stable (flat st) p2)) then 7
+  else if path =? path_qry then 0
   else if stmt_is kw_update st && plus_before_ph st && bound_errs then 8
-  else if stmt_is kw_update st && (2 <=? anon_in_where st false)%nat then 12
-  else if stmt_is kw_update st && blob_in_where st (vals p1) (vals p2) false O then 10
-  else if stmt_is kw_delete st && pk_delete st && same_values (vals p1) (vals p2) && first_ok && second_bad
-          && (nthz k 1 =? 0) && (nthz k 3 =? 0) then 9
-  else if (path =? path_pex) && stmt_is kw_insert st && negb (canonical_insert st) && first_ok && second_bad then 3
+  else if upd_or_del && (2 <=? anon_in_where st false)%nat then 12
+  else if upd_or_del && blob_in_where st p1 p2 false O then 10
   else if (path =? path_pex) && stmt_is kw_update st && simple_pk_update st && first_ok && second_bad then 4
   else if (path =? path_pex) && stmt_is kw_insert st && canonical_insert st && first_ok && second_bad
           && (nthz k 1 =? 1) && (nthz k 3 =? 0) then 11
